@@ -263,11 +263,11 @@ class _Quantifier(_UnaryOperator):
             return result
 
         groundings = list(operand.grounding_table.values())
-        bounds = self.func_inv(
-            self.get_data().repeat(len(operand.get_data()), 1),
-            operand.get_data()[:, :, None],
-        )
-        return operand.neuron.aggregate_bounds(groundings, bounds[..., 0])
+        neuron = self._create_neuron(arity=len(groundings))
+        input_bounds = operand.get_data(*operand.grounding_table.keys())
+        input_bounds = input_bounds.permute([1, 0])[None, :, :]
+        bounds = neuron.func_inv(self.get_data()[None, :], input_bounds)
+        return operand.neuron.aggregate_bounds(groundings, bounds[0].permute([1, 0]))
 
     def _propagate_groundings(self):
         if len(self._new_groundings):
